@@ -284,7 +284,11 @@ class DictReader:
         for i in self.parsed_doc:
             attr = self.is_valid_attribute(i, odmlfmt.Document)
             if attr == 'sections':
-                doc_secs = self.parse_sections(self.parsed_doc['sections'])
+                try:
+                    doc_secs = self.parse_sections(self.parsed_doc['sections'])
+                except RecursionError:
+                    raise ParserException("Invalid odML document: the Sections or a "
+                                          "value are nested too deeply.")
             elif attr:
                 # Make sure to always use the correct odml format attribute name
                 doc_attrs[odmlfmt.Document.map(attr)] = self.parsed_doc[i]
